@@ -67,7 +67,7 @@ def run(seed=0, rounds=40):
         ei = rnd.randrange(nb)
         e_[ei] = 1
         xs = rng.uniform(0, 1, size=rnd.randint(1, 6))
-        pick = [rnd.randrange(len(xs)) for _ in range(rnd.randint(0, 5))]
+        pick = [rnd.randrange(len(xs)) for _ in range(rnd.randint(1, 5))]      # (splev refuses an empty vector: modelled for n >= 1 only)
         full = _splev(xs, (kn, e_, dg))
         ok("splev row-local", np.allclose(_splev(xs[pick], (kn, e_, dg)), full[pick]) and
            all(np.isclose(float(_splev(xs[q], (kn, e_, dg))), full[q]) for q in range(len(xs))))
